@@ -138,6 +138,22 @@ func c07Cases() []c07Case {
 		}
 		return first(eq("src", i.SrcIP, env.RouterLLA), eq("ethernet source", net.HardwareAddr(i.SrcMAC[:]), net.HardwareAddr(x.nic.HostAddr4.MAC)))
 	})
+	add("dns.SendNBNSQuery(foreign source MAC)", nil, func(x *c07Objs) error {
+		return x.n.SendNBNSQuery(packet.Addr{MAC: foreign, IP: x.nic.HostAddr4.IP}, packet.Addr{MAC: env.MAC1, IP: c07IP4[0]}, "name")
+	}, func(x *c07Objs, f []refnet.SentInfo, raw [][]byte) string {
+		if len(f) != 1 {
+			return fmt.Sprintf("%d frames emitted, want exactly one", len(f))
+		}
+		return eq("ethernet source", net.HardwareAddr(f[0].SrcMAC[:]), net.HardwareAddr(x.nic.HostAddr4.MAC))
+	})
+	add("dns.SendSleepProxyResponse(foreign source MAC)", nil, func(x *c07Objs) error {
+		return x.n.SendSleepProxyResponse(packet.Addr{MAC: foreign, IP: x.nic.HostAddr4.IP}, packet.Addr{MAC: env.McastMAC, IP: netip.MustParseAddr("224.0.0.251"), Port: 5353}, 9, "x")
+	}, func(x *c07Objs, f []refnet.SentInfo, raw [][]byte) string {
+		if len(f) != 1 {
+			return fmt.Sprintf("%d frames emitted, want exactly one", len(f))
+		}
+		return eq("ethernet source", net.HardwareAddr(f[0].SrcMAC[:]), net.HardwareAddr(x.nic.HostAddr4.MAC))
+	})
 	// ---- ICMP echo
 	for mi := range c07MACs {
 		for ii := range c07IP4 {
